@@ -5,7 +5,7 @@ REAL_SYSTEM = [
     "octo-squirrel-server server::main() (accept loops, relay templates, codecs, user manager)",
     "octo-squirrel library (all codecs, WebSocketFramed, packet window, address codecs)",
     "tokio current-thread scheduler, timers and mpsc; tokio-util Framed/codec",
-    "tokio-rustls + rustls + aws-lc-rs (tls, wss)", "tokio-websockets (ws, wss)", "httparse",
+    "tokio-rustls + rustls + aws-lc-rs (tls, wss)", "tokio-websockets (ws, wss)", "httparse", "quinn + quinn-proto (quic cells)",
 ]
 STUB_SYSTEM = [
     "kernel TCP/UDP sockets and listeners (simulated: /verif/seam/net.rs)",
@@ -13,7 +13,7 @@ STUB_SYSTEM = [
     "monotonic clock source of lru_time_cache (vendored copy, tokio::time::Instant)",
     "OS entropy (seeded getrandom backend)", "config file / logger (handed over by the harness)",
     "multi-thread parallelism (one thread per world; thread-level sharing is covered by the shuttle engine only)",
-    "QUIC transport (not simulated)",
+    "QUIC: real quinn-proto / rustls-over-QUIC run; only their kernel UDP socket is the simulated datagram socket (hook H2), timers follow the paused clock",
     "local applications, targets, attackers (harness scripts)",
 ]
 ASSUME_SYSTEM = [
@@ -46,7 +46,7 @@ CHECKS = {
                 "Each segmentation is one evaluation; non-trivial = the stream had the same length as in the unsegmented baseline, so the cut fell where intended; distinct = distinct (plan, cut set, poll order) hashes. "
                 "Oracle: same target address, same plaintext both ways, no error, everything delivered at quiescence. Cuts inside the Shadowsocks-2022 first flight (salt + fixed header) are exempt from 'no error' only.",
         "real": REAL_SYSTEM, "stub": STUB_SYSTEM + ["man-in-the-middle segmenter on the client<->server link (harness)"],
-        "assumptions": ASSUME_SYSTEM + ["plain tcp carrier only in this check: TLS records and WebSocket frames are re-segmented by C01's network knobs, message-level re-chunking of WebSocket payloads is not enumerated here"],
+        "assumptions": ASSUME_SYSTEM + ["carriers of this check: plain tcp, tcp underneath the WebSocket layer, and WebSocket message level (a WebSocket-aware link node re-cuts the payload stream into other messages); TLS record and QUIC read boundaries are only sampled (C01's network knobs and write sizes)", "generator C04udp: datagrams carried in VMess / Trojan streams, reference client and real client, every single cut"],
     },
     "C05": {
         "level": "fault_enumeration",
@@ -57,9 +57,9 @@ CHECKS = {
                 "for Shadowsocks additionally no more is released than an untampered stream cut at the first tampered byte releases (release curve measured by a byte-at-a-time reference run); "
                 "a reflected stream releases nothing; the opposite direction stays a prefix too.",
         "real": REAL_SYSTEM, "stub": STUB_SYSTEM + ["man-in-the-middle mutator on the client<->server link (harness)"],
-        "assumptions": ASSUME_SYSTEM + ["plain tcp carrier (under tls/wss the outer TLS layer, third-party code, rejects every mutation first)",
+        "assumptions": ASSUME_SYSTEM + ["plain tcp and ws carriers (under tls / wss / quic the outer TLS layer, third-party code, rejects every mutation first)",
                                         "VMess leaves chunk padding unauthenticated by design, so VMess is held to the prefix oracle only",
-                                        "Trojan has no encryption of its own and is outside this property; datagram tampering is covered by the UDP checks"],
+                                        "Trojan has no encryption of its own and is outside this property", "generator C05udp: an on-path attacker re-injects every captured Shadowsocks datagram of both directions with a bit flipped at every byte position, truncations, edits, appended bytes and (2022) reflected to its sender"],
     },
     "C13": {
         "level": "fault_enumeration",
@@ -127,11 +127,11 @@ CHECKS = {
         "level": "fault_enumeration",
         "parts": [{"gen": "C16", "quick": 606, "thorough": 606, "exhaustive": True}],
         "exhaustive_claim": True,
-        "rule": "exhaustive over the documented names (570 cases, the seed is the case index): every cipher name (7 + the chacha20-ietf-poly1305 alias) x every server mode (tcp, udp, tcp_and_udp, quic, tcp_and_quic), "
+        "rule": "exhaustive over the documented names (606 cases, the seed is the case index): every cipher name (7 + the chacha20-ietf-poly1305 alias) x every server mode (tcp, udp, tcp_and_udp, quic, tcp_and_quic), "
                 "default modes, every client mode x protocol, every Shadowsocks-2022 key length 0..48 bytes as client password, server password and user-table key, and 26 undocumented cipher / protocol / mode strings "
-                "or missing ciphers on either side. Each case boots the real client and server main() with that JSON. Oracle: the TCP listeners and UDP sockets in the simulated registry equal the documented set for the mode, "
+                "or missing ciphers on either side; transport sections ssl, ws, ssl+ws and quic (incl. the quic / tcp_and_quic server modes with a QUIC endpoint in the registry and datagrams over quic); Shadowsocks-2022 key lists of 1-4 keys whose identity-header chain on stream and datagram is compared with the one the reference computes. Each case boots the real client and server main() with that JSON. Oracle: the TCP listeners and UDP sockets in the simulated registry equal the documented set for the mode, "
                 "a canary TCP flow and/or UDP exchange works over them, undocumented names and wrong-length keys leave the affected side not serving and its main() ended; never a panic.",
-        "real": REAL_SYSTEM, "stub": STUB_SYSTEM, "assumptions": ASSUME_SYSTEM + ["the QUIC half of quic / tcp_and_quic is not simulated: only their TCP/UDP halves are checked", "that a named cipher is exactly the named algorithm with the named key derivation is decided by the interoperability check (C03)"],
+        "real": REAL_SYSTEM, "stub": STUB_SYSTEM, "assumptions": ASSUME_SYSTEM + ["that a named cipher is exactly the named algorithm with the named key derivation is decided by the interoperability check (C03)"],
     },
     "C14": {
         "level": "exploration",
@@ -206,9 +206,9 @@ CHECKS = {
         "rule": "two engines. Task level (simnet): a batch of 2-8 (10%: 9-24, thorough -64) concurrent TCP flows through the real client and server over a cycling (protocol, cipher, tcp/tls/ws/wss) cell with drawn network knobs is run once all together "
                 "and once per flow alone (same seed, same slot); each flow's observable result (handshake, number of dials to its target, bytes and integrity each way, how each end saw it finish) must be identical. "
                 "Thread level (shuttle, hook H6): 2-4 threads under shuttle's seeded random and PCT schedulers each decode a reference-built Shadowsocks-2022 request with the real server-side decoder against one shared Context (salt cache): "
-                "the same request (at most one - and exactly one - acceptance), distinct requests (all accepted), a mix; never a panic. evaluations = flows compared + schedules; distinct = (plan, poll order) hashes + distinct thread orders.",
+                "the same request (at most one - and exactly one - acceptance), distinct requests (all accepted), a mix; never a panic. Further simnet parts: datagram sessions of several applications together versus alone (C09udp); sessions that present the same session id under different keys / users (C09sid). Miri part: three threads encode / decode 2022 datagrams through the process-wide cipher cache. evaluations = flows compared + schedules; distinct = (plan, poll order) hashes + distinct thread orders.",
         "real": REAL_SYSTEM + ["shuttle part: octo_squirrel::codec::shadowsocks::tcp::{Context, AEADCipherCodec} built from /repo's sources through a shadow manifest"],
         "stub": STUB_SYSTEM + ["shuttle part: std::sync::Mutex of the salt cache -> shuttle::sync::Mutex; wall clock is the real one there"],
-        "assumptions": ASSUME_SYSTEM + ["real parallel execution of whole relay tasks on tokio's multi-thread scheduler is not covered: flows share no mutable state besides the salt cache (shuttle) and the UDP cipher cache", "the UDP cipher cache (a static LruCache mutated through a shared reference) is not covered at thread level"],
+        "assumptions": ASSUME_SYSTEM + ["real parallel execution of whole relay tasks on tokio's multi-thread scheduler is not covered: flows share no mutable state besides the salt cache (shuttle) and the UDP cipher cache", "the datagram cipher cache is covered at thread level by the Miri part (3 threads, real SessionCodec, seeded scheduler): aliasing violations and data races, not functional interleavings of whole sessions"],
     },
 }
